@@ -46,6 +46,14 @@ func (r *Runner) TranslatorValidation(encs []Enc, perEnc int, seed int64) TVResu
 	for i := 0; i < 40; i++ {
 		jobs = append(jobs, Job{Dir: "z80", Harness: "VMicro", Label: fmt.Sprintf("VMicro/%d", i), KeepPaths: true})
 	}
+	// aggregate encodings: few jobs, each forks on its symbolic counts
+	nAgg := 1
+	if perEnc > 1 {
+		nAgg = 3
+	}
+	for i := 0; i < nAgg; i++ {
+		jobs = append(jobs, Job{Dir: "z80", Harness: "VMicroAgg", Label: fmt.Sprintf("VMicroAgg/%d", i), KeepPaths: true, NoPanic: true, MaxForks: 256, MaxPaths: 512, BudgetS: 30})
+	}
 	out := r.RunJobs(jobs)
 	rng := rand.New(rand.NewSource(seed + 12345))
 	tmp, err := os.MkdirTemp("", "zsym-tv-")
